@@ -201,6 +201,24 @@ def run(ctx):
                 enc = check_encode(res, case, s, bucket=f"len{min(n, 300)}")
                 if enc is not None:
                     check_decode(res, case, enc + b"\x00\xff", bucket=f"len{min(n, 300)}")
+        if d[2] == 2:
+            # bytes as a DEVICE writes them: the prefix counts 16-bit characters, and a character beyond the BMP takes two of them
+            # (a surrogate pair).  Only the decode direction is judged (round 13, R09-m1): what the library's own encoder makes of such
+            # a str is not a value of C06's / C07's generators.
+            for n in list(range(2, 40)) + [100, 255, 256, 1000]:
+                units = []
+                while len(units) < n:
+                    if len(units) + 2 <= n and rng.random() < 0.4:
+                        cp = rng.choice([0x10000, 0x1F600, 0x10FFFF, rng.randrange(0x10000, 0x110000)]) - 0x10000
+                        units += [0xD800 + (cp >> 10), 0xDC00 + (cp & 0x3FF)]
+                    else:
+                        units.append(rng.choice([rng.randrange(0x20, 0x7F), rng.randrange(0xA0, 0xD800), rng.randrange(0xE000, 0x10000)]))
+                if not any(0xD800 <= u < 0xDC00 for u in units):
+                    cp = 0x1F600 - 0x10000
+                    units[:2] = [0xD800 + (cp >> 10), 0xDC00 + (cp & 0x3FF)]
+                raw = n.to_bytes(d[1], "little") + b"".join(u.to_bytes(2, "little") for u in units)
+                check_decode(res, case, raw + b"\x00\xff", bucket=f"pairs{min(n, 40)}")
+            res.count("string2_surrogate_pair_patterns")
         res.count("string_types")
 
     # ---- (d) type-code table: documented code -> type of that width -------------------------
